@@ -5,7 +5,7 @@ Uses tools/mutcheck.sh (scratch copies of /repo and /verif)."""
 import json, os, re, subprocess, sys
 from concurrent.futures import ThreadPoolExecutor
 V = os.path.dirname(os.path.dirname(os.path.abspath(__file__)))
-seeds = sys.argv[1:] or sorted(os.listdir(os.path.join(V, "seeded")))
+seeds = sys.argv[1:] or sorted(x for x in os.listdir(os.path.join(V, "seeded")) if os.path.isdir(os.path.join(V, "seeded", x)))
 
 def run(seed):
     d = os.path.join(V, "seeded", seed)
